@@ -262,8 +262,8 @@ fn harnesses(tier: Tier) -> Vec<Harness> {
         for k1 in kinds {
             for y0 in 0..2u8 {
                 for y1 in 0..2u8 {
-                    if tier == Tier::Quick && y0 != y1 {
-                        continue; // quick: yields (0,0) and (1,1) only
+                    if tier == Tier::Quick && (y0 != y1 || (y0 == 1 && k0 != k1 && !(k0 == Kind::Ok && k1 == Kind::Panic))) {
+                        continue; // quick: yields (0,0) for every kind pair, (1,1) for equal kinds and Ok/Panic
                     }
                     v.push(Harness {
                         name: format!("2same-{k0:?}{y0}-{k1:?}{y1}"),
